@@ -42,6 +42,15 @@ pub(crate) fn decompress(data: &[u8], expected_size: usize) -> Result<Vec<u8>> {
         ));
     }
 
+    // The second header byte is the dictionary size in bits (4, 5 or 6). The exploder shifts
+    // by it without checking, so reject anything else here.
+    if data.len() < 2 || !(4..=6).contains(&data[1]) {
+        return Err(decompression_error(
+            "PKWare",
+            "invalid dictionary size in stream header",
+        ));
+    }
+
     // Use the implode crate for PKWare decompression in MPQ archives
     // Based on the working implementation in msierks/mpq-rust
     let mut exploder = Exploder::new(&DEFAULT_CODE_TABLE);
